@@ -13,6 +13,7 @@ pub struct RunLog {
     pub events: Vec<Value>,
     pub moves: Vec<&'static str>,
     pub panic: Option<String>,
+    pub panic_fwd: bool,
     pub compiled: bool,
 }
 
@@ -22,12 +23,13 @@ pub fn drive(run: usize, src: &str, strategy: usize, rng: &mut Rng, setup: &dyn 
     let mut xs = fresh();
     setup(&mut xs);
     xs.set_recording_enabled(true);
-    let mut log = RunLog { events: vec![], moves: vec![], panic: None, compiled: false };
+    let mut log = RunLog { events: vec![], moves: vec![], panic: None, panic_fwd: false, compiled: false };
     match guarded(|| xs.compile(src)) {
         Outcome::Done(Ok(())) => {}
         Outcome::Done(Err(_)) => return log,
         Outcome::Panic(m) => {
             log.panic = Some(m);
+            log.panic_fwd = true;
             return log;
         }
     }
@@ -45,7 +47,8 @@ pub fn drive(run: usize, src: &str, strategy: usize, rng: &mut Rng, setup: &dyn 
             match r {
                 Outcome::Panic(m) => {
                     log.panic = Some(m);
-                    log.events.push(json!({"run": run, "ev": "step", "ok": 0, "panic": 1, "d": "panic"}));
+                    // a panic in a forward step is C08's business; here the run simply ends
+                    log.panic_fwd = true;
                     return log;
                 }
                 Outcome::Done(r) => {
@@ -191,20 +194,20 @@ pub fn cmd_record(args: &[String]) -> i32 {
     for (i, src) in sources.iter().enumerate() {
         let strategy = i % 3;
         let log = drive(i, src, strategy, &mut rng, &|_| {});
-        if !log.compiled && log.panic.is_none() {
+        if !log.compiled {
             not_compiled += 1;
             continue;
         }
         runs += 1;
         events += log.events.len();
-        if log.panic.is_some() {
+        if log.panic.is_some() && !log.panic_fwd {
             panics += 1;
         }
         for e in &log.events {
             trace.push_str(&e.to_string());
             trace.push('\n');
         }
-        side.push_str(&json!({"run": i, "src": src, "strategy": strategy, "moves": log.moves.join(""), "panic": log.panic, "events": log.events.len()}).to_string());
+        side.push_str(&json!({"run": i, "src": src, "strategy": strategy, "moves": log.moves.join(""), "panic": if log.panic_fwd { None } else { log.panic.clone() }, "events": log.events.len()}).to_string());
         side.push('\n');
     }
     std::fs::write(trace_path, trace).unwrap();
